@@ -704,13 +704,49 @@ package fzf
 // control byte, or ESC and at least one more byte) it neither
 // indexes nor slices outside the text (hyperlink parameters included); an empty SGR sequence (ESC [ m) resets
 // colours and attributes but keeps the hyperlink and the line background of the previous state.
+// One SGR parameter at a time (ECMA-48 / xterm): what parameter n does to the attributes and to the two colours
+// when it is not part of a 38/48 extended-colour group ...
+//@ spec func sgrAttr(a int, n int) int = n == 0 ? 0 : (n == 1 ? a | 1 : (n == 2 ? a | 2 : (n == 3 ? a | 4 : (n == 4 ? a | 8 : (n == 5 ? a | 16 : (n == 7 ? a | 64 : (n == 9 ? a | 128 : (n == 22 ? (a &^ 1) &^ 2 : (n == 23 ? a &^ 4 : (n == 24 ? a &^ 8 : (n == 25 ? a &^ 16 : (n == 27 ? a &^ 64 : (n == 29 ? a &^ 128 : a)))))))))))))
+//@ spec func sgrFg(c int, n int) int = (n == 0 || n == 39) ? -1 : ((30 <= n && n <= 37) ? n - 30 : ((90 <= n && n <= 97) ? n - 82 : c))
+//@ spec func sgrBg(c int, n int) int = (n == 0 || n == 49) ? -1 : ((40 <= n && n <= 47) ? n - 40 : ((100 <= n && n <= 107) ? n - 92 : c))
+// ... and how the extended-colour group advances: 38/48 open it, 5 selects the 256-colour form (one more
+// parameter), 2 the 24-bit form (three more: r, g, b); mode 0 = outside a group.
+//@ spec func sgrMode(m int, n int) int = m == 0 ? ((n == 38 || n == 48) ? 1 : 0) : (m == 1 ? (n == 2 ? 10 : (n == 5 ? 2 : 0)) : (m == 10 ? 11 : (m == 11 ? 12 : 0)))
 //@ func interpretCode
 //@ property C11
 //@ wrap Color int32 -- colour numbers are truncated to 32 bits by the conversion, as in Go
 //@ requires len(ansiCode) >= 1 && (ansiCode[0] == 27 ==> len(ansiCode) >= 2)
 //@ ensures len(ansiCode) == 3 && ansiCode[0] == 27 && ansiCode[1] == 91 && ansiCode[2] == 109 ==> result.fg == -1 && result.bg == -1 && result.attr == 0 && result.url == (prevState == nil ? nil : prevState.url) && result.lbg == (prevState == nil ? -1 : prevState.lbg)
+// The ghosts hold the state before the parameter that was handled last (pm: mode, pn: the parameter, pa/pf/pb:
+// attributes and colours, pt: 1 when the group's target is the foreground); the loop invariant says that the state
+// now is that state advanced by that one parameter.
+//@ ghost pm int
+//@ ghost pn int
+//@ ghost pa int
+//@ ghost pf int
+//@ ghost pb int
+//@ ghost pt int
+//@ ghost @"count := 0" pm = 1
+//@ ghost @"count := 0" pn = -1
+//@ ghost @"count := 0" pa = state.attr
+//@ ghost @"count := 0" pf = state.fg
+//@ ghost @"count := 0" pb = state.bg
+//@ ghost @"count := 0" pt = 1
+//@ ghost @"count++" pm = state256
+//@ ghost @"count++" pn = num
+//@ ghost @"count++" pa = state.attr
+//@ ghost @"count++" pf = state.fg
+//@ ghost @"count++" pb = state.bg
+//@ ghost @"count++" pt = (ptr == &state.fg ? 1 : 0)
 //@ loop 1
 //@   invariant (ptr == &state.fg || ptr == &state.bg) && 0 <= count
+//@   invariant state256 == sgrMode(pm, pn) && state.attr == (pm == 0 ? sgrAttr(pa, pn) : pa)
+//@   invariant pm == 0 ==> state.fg == sgrFg(pf, pn) && state.bg == sgrBg(pb, pn) && (pn == 38 ==> ptr == &state.fg) && (pn == 48 ==> ptr == &state.bg) && (pn != 38 && pn != 48 ==> (ptr == &state.fg) == (pt == 1))
+//@   invariant pm != 0 ==> (ptr == &state.fg) == (pt == 1) && (pt == 1 ? state.bg == pb : state.fg == pf)
+//@   invariant pm == 1 ==> state.fg == pf && state.bg == pb
+//@   invariant pm == 2 && 0 <= pn && pn <= 255 ==> (pt == 1 ? state.fg : state.bg) == pn
+// (not specified: how the three parameters of the 24-bit form are packed into the colour value - bitwise or of
+//  non-constant operands is uninterpreted in the verifier; only which colour the group targets is)
 //@ func ansiState.equals trusted
 //@ func ansiState.colored trusted
 //@ func extractColor
